@@ -480,4 +480,11 @@ def r4_single_conversion(ctx):
     ctx.floor(n, 6)
 
 
-RULES = [r1_slice_walk, r2_log_pairing, r3_per_component_boundaries, r4_single_conversion]
+def r5_copies_keep_the_declared_scale(ctx):
+    """pygmo evaluates a deep copy of the problem: the copy hooks on the way to ParameterValues must keep every slot (`logarithmic`, `boundaries`), otherwise the copied problem applies raw exponents outside the declared bounds (shared with C06.R3)."""
+    from props.C06 import r3_deepcopy_completeness
+
+    r3_deepcopy_completeness(ctx)
+
+
+RULES = [r5_copies_keep_the_declared_scale, r1_slice_walk, r2_log_pairing, r3_per_component_boundaries, r4_single_conversion]
